@@ -260,7 +260,7 @@ pub fn run(args: &Args, report: &mut Report) {
             cases.push(gen_case(&mut rng, &names, i as u32));
         }
     }
-    report.rule = "programs = 4..12 snippets out of 28 (each raising particular codes, incl. default-off ones) × configurations (diagnostics.disable / enables / severity / globals / globalsRegex (incl. an invalid regex) / enable, runtime.version) × file switches (---@meta, top-level ---@diagnostic enable/disable) × placement (main, library, remote, std root, outside); each case is diagnosed once with everything enabled and the file switches neutralised (raw) and once as configured; non-trivial = raw run has >= 3 distinct codes and the configuration sets at least one switch; distinct by (text, configuration, placement)".into();
+    report.rule = "programs = 4..12 snippets out of 28 (each raising particular codes, incl. default-off ones) × configurations (diagnostics.disable / enables / severity / globals / globalsRegex (valid and invalid patterns mixed in one list) / enable, runtime.version) × file switches (---@meta in every spelling: bare, `_`, `no-require`, simple and dotted module names, with trailing text, `--- @meta`; a quarter of all cases, two thirds of them with a bare configuration (default or only `enables`); top-level ---@diagnostic enable/disable) × placement (main, library, remote, std root, outside); each case is diagnosed once with everything enabled and the file switches neutralised (raw) and once as configured; non-trivial = raw run has >= 3 distinct codes and the configuration sets at least one switch; distinct by (text, configuration, placement)".into();
 
     let mut world = World::new();
     let mut seen = HashSet::new();
